@@ -235,6 +235,41 @@ Fixpoint run (st : spill) (es : list event) : spill * list obs :=
   | e :: es' => let '(st1, o) := step st e in let '(st2, os) := run st1 es' in (st2, o :: os)
   end.
 
+(* ---- specification vocabulary: what a trace (schedule + observations) wrote and delivered *)
+(* the batch of a write that returned Ok *)
+Definition ev_written (e : event) (o : obs) : list B :=
+  match e, o with
+  | EWrite b _ _, OWrite SOk _ _ => [b]
+  | _, _ => []
+  end.
+Fixpoint written (es : list event) (os : list obs) : list B :=
+  match es, os with
+  | e :: es', o :: os' => ev_written e o ++ written es' os'
+  | _, _ => []
+  end.
+(* the batches reader k's stream yielded *)
+Fixpoint rdelivered (k : nat) (es : list revent) (os : list robs) : list B :=
+  match es, os with
+  | RPoll j :: es', OBatch b :: os' => if j =? k then b :: rdelivered k es' os' else rdelivered k es' os'
+  | _ :: es', _ :: os' => rdelivered k es' os'
+  | _, _ => []
+  end.
+Definition ev_delivered (k : nat) (e : event) (o : obs) : list B :=
+  match e, o with
+  | ERead re, ORead ro => rdelivered k [re] [ro]
+  | EWrite _ _ d, OWrite _ _ os => rdelivered k d os
+  | EFinish d, OFinish _ os => rdelivered k d os
+  | _, _ => []
+  end.
+Fixpoint delivered (k : nat) (es : list event) (os : list obs) : list B :=
+  match es, os with
+  | e :: es', o :: os' => ev_delivered k e o ++ delivered k es' os'
+  | _, _ => []
+  end.
+(* SpillReader::batches_read of reader k (0 when there is no such reader) *)
+Definition nread (st : spill) (k : nat) : nat :=
+  match nth_error (sp_readers st) k with Some r => rd_read r | None => 0 end.
+
 End Spill.
 
 Arguments sstate B : clear implicits.
